@@ -163,11 +163,11 @@ func (s Shape) SourceDeco(pkg string, mode, level int) string {
 					// an unexported field declared together with a column: `N0, hidden0 int32`
 					names = fmt.Sprintf("%s, hidden%d", fn, ctr-1)
 				}
-				fields = append(fields, fmt.Sprintf("\t%s %s%s `parquet:\"%s\"`", names, c.Kind.Prefix(), c.elem(), strings.ToLower(fn)))
+				fields = append(fields, fmt.Sprintf("\t%s %s%s%s", names, c.Kind.Prefix(), c.elem(), tagFor(mode, fn, ctr)))
 			} else {
 				tn := name + fn
 				mk(c.Children, tn, depth+1)
-				fields = append(fields, fmt.Sprintf("\t%s %s%s `parquet:\"%s\"`", fn, c.Kind.Prefix(), tn, strings.ToLower(fn)))
+				fields = append(fields, fmt.Sprintf("\t%s %s%s%s", fn, c.Kind.Prefix(), tn, tagFor(mode, fn, ctr)))
 			}
 			excl(i + 1)
 		}
@@ -180,6 +180,20 @@ func (s Shape) SourceDeco(pkg string, mode, level int) string {
 	}
 	mk(s, "Rec", 0)
 	return "package " + pkg + "\n\n// shape: " + s.String() + fmt.Sprintf(" deco mode %d level %d", mode, level) + "\n\n" + strings.Join(types, "\n")
+}
+
+// tagFor: the struct tag of a field. Modes 4-6 vary only the tag: 4 = the parquet key between other keys (inert),
+// 5 = no tag at all (the column is named after the field), 6 = a parquet tag spelling out the field name (= mode 5).
+func tagFor(mode int, fn string, n int) string {
+	switch mode {
+	case 4:
+		return fmt.Sprintf(" `json:\"j%d,omitempty\" parquet:\"%s\" db:\"-\"`", n, strings.ToLower(fn))
+	case 5:
+		return ""
+	case 6:
+		return fmt.Sprintf(" `parquet:\"%s\"`", fn)
+	}
+	return fmt.Sprintf(" `parquet:\"%s\"`", strings.ToLower(fn))
 }
 
 func (s Shape) depth() int {
